@@ -7,7 +7,7 @@ from typing import Any, Optional
 from ..constfold import NotConstant, Regex
 from ..context import Ctx
 from ..match import ANYP, H, decision_table, is_atom, match, resolve_ite, strip
-from ..report import AnalysisError, Rule
+from ..report import AnalysisError, Rule, Unproven
 from ..terms import show, subterms
 from .lib import cond_str, exc_is, exc_name, fail, is_none_atom, live_exits, unknown_atoms
 from .timing import BPMEVENT, TIMEDELTA
@@ -37,9 +37,9 @@ def regex_of(ctx: Ctx, cq: str, attr: str = "_regex_prog") -> Regex:
     try:
         v = ctx.fold.fold(t)
     except NotConstant as e:
-        raise AnalysisError(f"{cq}.{attr} is not a foldable constant: {e}")
+        raise Unproven(f"{cq}.{attr}", f"{cq}.{attr} is not a constant the analysis can evaluate any more: {e}", c.module.path, getattr(c.node, "lineno", 0))
     if not isinstance(v, Regex):
-        raise AnalysisError(f"{cq}.{attr} folds to {v!r}, not a compiled pattern")
+        raise Unproven(f"{cq}.{attr}", f"{cq}.{attr} evaluates to {v!r}, not a compiled pattern", c.module.path, getattr(c.node, "lineno", 0))
     return v
 
 
